@@ -89,10 +89,20 @@ pub fn run_check(ctx: &Ctx) -> Outcome {
             // "every internal partition stays within its configured bound": the 2Q quota and
             // ghost bound as configured, through every construction path
             check_2q_quota_grid_for(ctx, &mut out, "C01");
+            check_conv(ctx, crate::conv::ConvProp::C01, &mut out, 2000, 40000);
         }
-        "C02" => check_e1(ctx, Prop::C02, &mut out, 10000, 200000),
-        "C03" => check_e1(ctx, Prop::C03, &mut out, 12000, 250000),
-        "C04" => check_e1(ctx, Prop::C04, &mut out, 12000, 250000),
+        "C02" => {
+            check_e1(ctx, Prop::C02, &mut out, 10000, 200000);
+            check_conv(ctx, crate::conv::ConvProp::C02, &mut out, 2000, 40000);
+        }
+        "C03" => {
+            check_e1(ctx, Prop::C03, &mut out, 12000, 250000);
+            check_conv(ctx, crate::conv::ConvProp::C03, &mut out, 2000, 40000);
+        }
+        "C04" => {
+            check_e1(ctx, Prop::C04, &mut out, 12000, 250000);
+            check_conv(ctx, crate::conv::ConvProp::C04, &mut out, 2000, 40000);
+        }
         "C05" => {
             check_c05(ctx, &mut out);
             run_nostd_child(ctx, &mut out);
@@ -101,19 +111,23 @@ pub fn run_check(ctx: &Ctx) -> Outcome {
             check_e1(ctx, Prop::C06, &mut out, 12000, 250000);
             check_e2(ctx, Prop::C06, &[Kind::Lru], &mut out);
             check_ctor_caps_for(ctx, &mut out, "C06");
+            check_vtype(ctx, Kind::Lru, &mut out, 3000, 60000);
         }
         "C07" => {
             check_e1(ctx, Prop::C07, &mut out, 12000, 250000);
             check_e2(ctx, Prop::C07, &[Kind::Seg], &mut out);
+            check_vtype(ctx, Kind::Seg, &mut out, 3000, 60000);
         }
         "C08" => {
             check_e1(ctx, Prop::C08, &mut out, 12000, 250000);
             check_e2(ctx, Prop::C08, &[Kind::TwoQ], &mut out);
             check_2q_quota_grid(ctx, &mut out);
+            check_vtype(ctx, Kind::TwoQ, &mut out, 3000, 60000);
         }
         "C09" => {
             check_e1(ctx, Prop::C09, &mut out, 12000, 250000);
             check_e2(ctx, Prop::C09, &[Kind::Arc], &mut out);
+            check_vtype(ctx, Kind::Arc, &mut out, 3000, 60000);
         }
         "C10" => {
             check_e1(ctx, Prop::C10, &mut out, 12000, 250000);
@@ -190,6 +204,20 @@ pub fn replay(prop: &str, engine: &str, case: &Value) -> Result<Option<Violation
         "c16" => {
             let c: crate::multi::C16Case = serde_json::from_value(case.clone()).map_err(|e| e.to_string())?;
             Ok(exec_c16(&c).violation)
+        }
+        "vtype" => {
+            let c: crate::vtype::VCase = serde_json::from_value(case.clone()).map_err(|e| e.to_string())?;
+            Ok(crate::vtype::run_vtype(&c).violation)
+        }
+        "conv" => {
+            let c: crate::conv::ConvCase = serde_json::from_value(case.clone()).map_err(|e| e.to_string())?;
+            let p = match prop {
+                "C01" => crate::conv::ConvProp::C01,
+                "C02" => crate::conv::ConvProp::C02,
+                "C04" => crate::conv::ConvProp::C04,
+                _ => crate::conv::ConvProp::C03,
+            };
+            Ok(crate::conv::run_conv(&c, p).violation)
         }
         "tinylfu" => {
             let c: crate::e7::TCase = serde_json::from_value(case.clone()).map_err(|e| e.to_string())?;
